@@ -1,4 +1,5 @@
 import Proofs.BatchLemmas
+import Proofs.Holding
 /-
   C06 — At-most-once execution of an entry (replay protection).
 -/
@@ -69,6 +70,39 @@ theorem window_strictly_earlier (fromH h i : Nat) (hi : i ∈ (List.range (h - f
   have := List.mem_range.1 hk
   omega
 
+/-- **At least once.** When a block at or above the transaction activation is applied, then
+    unless it had no usable rates (conversions keep waiting) every batch held at a height of the
+    window `[last rated height, this height)` is considered in this very block: a status
+    (execution height or reject code) is written for it, or it already bears a replay mark, or its
+    conversion could not be computed (dropped: C17's known finding). Together with
+    `window_strictly_earlier` and `mark_is_permanent` this is "considered for execution exactly
+    once". (`DB.statusLog` is a history variable: the sequence of status writes.) -/
+theorem held_batches_are_considered {P : Params} {c : DB} {b : Block} {avgs : TMap} {s' : DB}
+    (hrun : blockTx P c b avgs c = .ok () s') (htx : b.height ≥ P.act.txConv) :
+    (∃ s1 s2 st, gradeAndRates P c b s1 = .ok st s2 ∧ st ≠ .cont true) ∨
+    ∃ rates, ∀ row ∈ c.holding, (c.mostRecentRatesBefore b.height).2 ≤ row.height → row.height < b.height →
+      Considered P b.height rates avgs c s' row.entry :=
+  block_considers_held hrun htx
+
+/-- non-vacuity: a concrete holding window in which a funded conversion is executed (a status is
+    written), evaluated by the kernel -/
+def wP : Params :=
+  { act := ⟨0,0,0,0,0,0,0,0,0,0,100,100,200,200,300,310,400⟩, tickerMax := 63, tickerNames := ["PEG", "pUSD", "pEUR"], oneWaySet := [],
+    snapshotRate := 144, perBlockHolders := 0, perBlockDevs := 0, bankBase := 0, avgPeriod := 8, avgRequired := 4,
+    syncVersion := 2, devs := [], «mint» := [], burnAddr := "b", oldBurnAddr := "o", mintAddr := "m", coinbaseAddr := "c", zeroAddr := "0" }
+def wEntry : TxEntry :=
+  { hash := "e1", ts := 0, validRCD1 := true, validRCDe := true,
+    parsed := some (1, [{ inAddr := "alice", inType := 2, inAmount := 100, transfers := [], conversion := 3 }]) }
+def wDB : DB :=
+  { addrs := [{ addr := "alice", bals := setB [] 2 1000 }],
+    holding := [{ entry := wEntry, height := 7, keymr := "k" }],
+    histB := [{ hash := "e1", height := 7, blockorder := 0, ts := 0, executed := 0 }] }
+example :
+    (match applyHolding wP wDB 9 [(2, 100000000), (3, 200000000)] [] 7 wDB with
+     | .ok _ s' => s'.statusLog
+     | .fail _ _ => []) = [("e1", 9)] := by
+  decide
+
 end Pegnet.C06
 
 #print axioms Pegnet.C06.execution_marks_entry
@@ -76,3 +110,4 @@ end Pegnet.C06
 #print axioms Pegnet.C06.repeated_arrival_is_noop
 #print axioms Pegnet.C06.repeated_holding_no_balance_change
 #print axioms Pegnet.C06.window_strictly_earlier
+#print axioms Pegnet.C06.held_batches_are_considered
